@@ -91,3 +91,10 @@ Lemma gen_walk_lookup_context :
   negb (match walk_done_ctx with [] => true | _ => false end) &&
   forallb (fun c => existsb (String.eqb c) walk_done_ctx) walk_lookup_ctx = true.
 Proof. vm_compute. reflexivity. Qed.
+
+(* no size threshold in the producer loop: its only integer literals are the WaitGroup count, the
+   initial length and the initial capacity of the path buffer (the visited set lives as long as
+   the iteration; C14_order_nodup relies on it) *)
+Lemma gen_producer_literals :
+  forallb (fun z => existsb (Z.eqb z) [0; 1; 100]%Z) flat_ints_NewChildFirstOrdering = true.
+Proof. vm_compute. reflexivity. Qed.
